@@ -93,7 +93,7 @@ class VecInterp(SE.Interp):
             op = e0["op"].rstrip("=")
             if isinstance(cur, int) and isinstance(rhs, int) and op in ("+", "-"):
                 v = cur + rhs if op == "+" else cur - rhs
-                if v < 0:
+                if v < 0 and str(H.unwrap(e0["l"]).get("ty", "")) not in ("isize", "i8", "i16", "i32", "i64", "i128"):
                     raise H.Unsupported("subtraction underflow (would panic)")
                 self.assign(e0["l"], v, env)
                 return ("t", ())
@@ -103,10 +103,27 @@ class VecInterp(SE.Interp):
             b = self.ev(e0["r"], env)
             if isinstance(a, int) and isinstance(b, int) and not isinstance(a, bool):
                 v = {"+": a + b, "-": a - b, "*": a * b}[e0["op"]]
-                if v < 0:
+                if v < 0 and str(e0.get("ty", "")) not in ("isize", "i8", "i16", "i32", "i64", "i128"):
                     raise H.Unsupported("subtraction underflow (would panic)")
                 return v
             raise H.Unsupported("arithmetic on %r, %r" % (a, b))
+        if k == "unary" and e0["op"] == "-":
+            v = self.ev(e0["e"], env)
+            if isinstance(v, int) and not isinstance(v, bool):
+                return -v
+            raise H.Unsupported("negation of %r" % (v,))
+        if k == "cast":
+            v = self.ev(e0["e"], env)
+            ty = str(e0.get("ty", ""))
+            if isinstance(v, int) and not isinstance(v, bool):
+                if ty in ("isize", "i64", "i128", "i32"):
+                    return v
+                if ty in ("usize", "u64", "u128"):
+                    if v < 0:
+                        return v + (1 << 64)
+                    return v
+                if ty in ("u32", "u16", "u8"):
+                    return v & ((1 << {"u32": 32, "u16": 16, "u8": 8}[ty]) - 1)
         if k == "match" and e0.get("src") == "ForLoopDesugar":
             return self.for_loop(e0, env)
         if k == "match" and str(e0.get("src", "")).startswith("TryDesugar"):
@@ -306,6 +323,21 @@ class VecInterp(SE.Interp):
             return deep(recv)
         if callee.startswith("core::option::Option") and name in ("as_ref", "as_mut", "copied", "cloned"):
             return recv
+        if callee.startswith("core::option::Option") and name == "or":
+            return args[0] if recv == H.NONE_V else recv
+        if callee.startswith("core::option::Option") and name == "or_else":
+            return self.call_closure(args[0], []) if recv == H.NONE_V else recv
+        if callee.startswith("core::option::Option") and name == "and_then":
+            return H.NONE_V if recv == H.NONE_V else self.call_closure(args[0], [recv[2][0]])
+        if callee.startswith("core::option::Option") and name == "map_or":
+            return args[0] if recv == H.NONE_V else self.call_closure(args[1], [recv[2][0]])
+        if callee.startswith("core::option::Option") and name == "unwrap_or_else":
+            return self.call_closure(args[0], []) if recv == H.NONE_V else recv[2][0]
+        if callee.startswith("core::option::Option") and name == "filter":
+            if recv == H.NONE_V:
+                return recv
+            keep = self.call_closure(args[0], [recv[2][0]])
+            return recv if keep is True else H.NONE_V
         if callee.startswith("core::option::Option") and name in ("unwrap_or", "unwrap_or_default"):
             if recv == H.NONE_V:
                 return args[0] if args else ("sym", "default")
@@ -753,10 +785,25 @@ def gc_semantics(w, S, T):
     soft_n, hard_n = names
     bf = w.facts.struct_fields(S.buffer_ty)
     n = 0
-    for rows in (1, 2):
-        for size in range(0, 6):
-            for lim in [None] + [(s_, h_) for s_ in range(0, 4) for h_ in (s_, s_ + 1)]:
-                for flag in (False, True):
+    # integer literals / constants the gc and trim routines mention induce further size classes (a batch cap, a threshold)
+    lits = set()
+    for f in {T.buf_gc, T.trim_fn}:
+        if f in w.facts.hir:
+            for nd in H.walk(w.facts.hir[f]["body"]):
+                if H.is_k(nd, "lit") and nd.get("t") == "int" and isinstance(nd.get("v"), int) and 3 < nd["v"] < 100000:
+                    lits.add(nd["v"])
+                if H.is_k(nd, "path") and nd.get("res") == "def" and str(nd.get("dk", "")).startswith("Const"):
+                    c = w.facts.const_int(nd.get("path"))
+                    if isinstance(c, int) and 3 < c < 100000:
+                        lits.add(c)
+    cases = [(rows, size, lim, flag) for rows in (1, 2) for size in range(0, 6) for lim in [None] + [(s_, h_) for s_ in range(0, 4) for h_ in (s_, s_ + 1)] for flag in (False, True)]
+    for c in sorted(lits):
+        for size in (c - 1, c, c + 1, c + 3, 2 * c + 1):
+            cases += [(1, size, (0, 0), True), (1, size, (1, 1), True)]
+    if True:
+        if True:
+            if True:
+                for (rows, size, lim, flag) in cases:
                     lines = [("obj", S.line_ty, {S.cells_field: Vec([("sym", "l%d" % i)]), S.wrap_field: False}) for i in range(size + rows)]
                     flds = {}
                     for f in bf:
